@@ -58,6 +58,7 @@ impl Prop for C01 {
         let alpha = gen_alpha(ch);
         let max_lines = if thorough && ch.chance(1, 4) { 200 } else { 40 };
         let mut feat = vec![];
+        let mut force_cli = false;
         // sides
         let side_kind = ch.weighted(&[12, 2, 2, 1, 1]);
         let (a, b, ops): (Option<Vec<B>>, Option<Vec<B>>, Vec<Op>) = match side_kind {
@@ -99,7 +100,17 @@ impl Prop for C01 {
                 (Some(a), Some(vec![]), ops)
             }
             _ => {
-                let a = gen_file_lines(ch, alpha, max_lines, true);
+                let mut a = gen_file_lines(ch, alpha, max_lines, true);
+                // a line longer than any I/O buffer (>= 64 KiB) that is not the first line; always through the binary
+                if a.len() >= 2 && ch.chance(1, 150) {
+                    let i = ch.range(1, a.len() - 1);
+                    let n = ch.range(65536, 70000);
+                    let mut l: Vec<u8> = (0..n).map(|j| b'a' + (j % 23) as u8).collect();
+                    l.push(b'\n');
+                    a[i] = B(l);
+                    feat.push("line>=64KiB".into());
+                    force_cli = true;
+                }
                 let (b, ops) = gen_edit(ch, &a, alpha, true);
                 (Some(a), Some(b), ops)
             }
@@ -152,7 +163,7 @@ impl Prop for C01 {
         if matches!(alpha, crate::choose::Alphabet::Nasty) {
             feat.push("nasty-bytes".into());
         }
-        let cli_threads = if ch.chance(1, 13) { Some(*ch.pick(&[1usize, 1, 2, 4])) } else { None };
+        let cli_threads = if ch.chance(1, 13) || force_cli { Some(*ch.pick(&[1usize, 1, 2, 4])) } else { None };
         Case { path, a, b, context: c, strip: d.strip, patch: B(patch), cli_threads, feat }
     }
 
